@@ -39,6 +39,9 @@ def plan(ctx):
         obs.append(Obligation(oid, "xh", "c02", "node_step", param=p, timeout=T,
                               bounds="children return ints / a list / a str; the node's name from 6 spellings incl. attribute paths (%x.__class__%, %f.__globals__%)",
                               desc="every node kind maps plain child results to plain results; nothing non-plain is stored"))
+    for i, text in enumerate(h.IO_TEMPLATES):
+        obs.append(Obligation(f"no_io.t{i}", "xh", "c02", "api_no_io", param={"io": i}, timeout=T, bounds="concrete failing / succeeding program; evaluated once or twice",
+                              desc=f"eval({text!r}): no open / os / socket / subprocess / import / exec / compile audit events, also on the error path"))
     for i, text in enumerate(h.TEMPLATES):
         obs.append(Obligation(f"api.t{i}", "xh", "c02", "api_plain", param={"t": i}, timeout=T, bounds="host ints symbolic",
                               desc=f"eval({text!r}): result and names are plain"))
